@@ -294,10 +294,16 @@ PhysAddr == \A i \in 1..Len(fwd) :
                   key == PTKey(o.pid, PageOf(o.a)) IN
               /\ key \in DOMAIN pt
               /\ fwd[i].p.a = Phys(pt[key], o.a)
-\* kind, size, data and byte mask go down unchanged
+\* A write's byte mask is either absent (Go nil: every byte is written), logged as NilMask, or one
+\* flag per byte.  What must survive translation is the set of bytes the write takes effect on:
+\* an absent mask may stay absent or become all-true, never all-false.
+NilMask == <<-1>>
+EffBytes(p) == IF p.m = NilMask THEN 1..Len(p.d) ELSE {i \in 1..Len(p.m) : p.m[i] = 1}
+SamePayload(f, o) == f.k = o.k /\ f.n = o.n /\ f.d = o.d /\ EffBytes(f) = EffBytes(o)
+\* kind, size, data and the effect of the byte mask go down unchanged
 PayloadPreserved == \A i \in 1..Len(fwd) :
                       LET o == orig[fwd[i].top].p IN
-                      /\ fwd[i].p.k = o.k /\ fwd[i].p.n = o.n /\ fwd[i].p.d = o.d /\ fwd[i].p.m = o.m
+                      /\ SamePayload(fwd[i].p, o)
 \* the response goes to the original requester, carries the original id and what memory
 \* answered to the physical access made for that very request
 RspToOriginal == \A i \in 1..Len(rsps) :
